@@ -64,6 +64,26 @@ package scheduler
 //@   calls ContainerQueue.Unlock#1: requires ctr.State == arvados.ContainerStateLocked && $0 == ctr.UUID
 //@   calls ContainerQueue.Unlock#2: requires ctr.State == arvados.ContainerStateLocked && $0 == ctr.UUID
 //@   calls ContainerQueue.Unlock#2: set lastUnlocked = $0
+//@   # containers are considered in descending priority order
+//@   at assign running#1: assert forall a, b int :: 0 <= a && a < b && b < len(sorted) ==> sorted[a].Container.Priority >= sorted[b].Container.Priority
+//@   # a failed start marks the instance type, and marks are never removed during
+//@   # the pass: no lower-priority container of that type is started afterwards
+//@   ghost tried bool = false
+//@   ghost sres bool = false
+//@   ghost ds0 $val[arvados.InstanceType]bool = vals(dontstart)
+//@   ghost dd0 $dom[arvados.InstanceType] = dom(dontstart)
+//@   at assign it#1: set tried = false
+//@   at assign it#1: set ds0 = vals(dontstart)
+//@   at assign it#1: set dd0 = dom(dontstart)
+//@   calls WorkerPool.StartContainer#1: set tried = true
+//@   calls WorkerPool.StartContainer#1: set sres = $r
+//@   at loop 2 back: assert tried && !sres ==> has(dontstart, it) && dontstart[it]
+//@   at loop 2 back: assert forall t arvados.InstanceType :: dd0[t] && ds0[t] ==> has(dontstart, t) && dontstart[t]
+//@   # at quota, everything from the first unmappable container on (which
+//@   # includes every strictly lower-priority container) is handed to the
+//@   # unlock loop
+//@   at assign overquota#1: assert overquota == sorted[i:]
+//@   at assign overquota#2: assert overquota == sorted[i:]
 //@   loop 3: exhaustive
 //@   at loop 3 back: assert ctr.State == arvados.ContainerStateLocked ==> lastUnlocked == ctr.UUID
 
